@@ -68,7 +68,7 @@ ORACLE_SELF = 1e-10
 READ_OK = {'time_interval', 'space_interval', 'gamma_space'}
 
 MONO = ['one', 'x', 'y', 'xx', 'xy', 'yy']
-BASE = MONO + ['sinx_y']
+BASE = MONO + ['sinx_y', 'x_view', 'y_view']  # *_view: the callback returns a VIEW of its argument (the plain coordinate functions lambda xy: xy[0])
 COMBOS = [(MONO[i], MONO[j], 1.0, 1.0) for i in range(6) for j in range(i + 1, 6)] + \
          [('x', 'sinx_y', 0.3, -1.7), ('sinx_y', 'xy', -2.5, 0.75), ('one', 'sinx_y', 1.0, 1.0)]
 
@@ -85,6 +85,7 @@ def u0_callable(name, dom):
     return {
         'one': lambda xy: np.ones_like(xy[0], dtype=float),
         'x': lambda xy: xy[0] * 1.0, 'y': lambda xy: xy[1] * 1.0,
+        'x_view': lambda xy: xy[0], 'y_view': lambda xy: xy[1],
         'xx': lambda xy: xy[0]**2, 'xy': lambda xy: xy[0] * xy[1], 'yy': lambda xy: xy[1]**2,
         'sinx_y': lambda xy: np.sin(xy[0]) * xy[1],
     }[name]
@@ -96,7 +97,7 @@ def combo_callable(u, v, al, be, dom):
 
 
 def oracle_name(name):
-    return 'one' if name == 'one_driver' else name
+    return {'one_driver': 'one', 'x_view': 'x', 'y_view': 'y'}.get(name, name)
 
 
 def sup_u0(name, dom):
@@ -221,6 +222,7 @@ def call_linform(M0, e, reads):
 
 def ref_load(dom, u0n, k, st):
     """Oracle load with the two unrelated parameter sets; their disagreement is tracked (harness self-check)."""
+    u0n = oracle_name(u0n) if isinstance(u0n, str) else u0n
     r = get_orc(dom, 'std').load(u0n, (k[0], k[1]), (k[2], k[3]))
     r2 = get_orc(dom, 'alt').load(u0n, (k[0], k[1]), (k[2], k[3]))
     one = r if u0n == 'one' else get_orc(dom, 'std').load('one', (k[0], k[1]), (k[2], k[3]))
